@@ -7,6 +7,9 @@ Sources (pinned tree):
 * `SSRB(ProjData& out, const ProjData& in, bool do_norm)`: src/buildblock/SSRB.cxx:165-310 (`pullsSino`, `targets`, `ssrbData`);
 * `ProjDataInfoCylindrical::get_m`, `get_axial_sampling`, `initialise_ring_diff_arrays` (m_offset):
   src/include/stir/ProjDataInfoCylindrical.inl:72, :134, src/buildblock/ProjDataInfoCylindrical.cxx:138-150 (`Seg.m4`);
+  and, in millimetres for a given ring spacing, `Seg.mMm`, `Seg.axialSampling` (round 4: scanners whose ring spacing is not a dyadic rational);
+* `VoxelsOnCartesianGrid::construct_from_projdata_info` with `find_sampling_and_z_size`: src/buildblock/VoxelsOnCartesianGrid.cxx:53-150, :215-283
+  (`voxelsFromProjData`: grid sizes derived from float zooms);
 * `ProjDataInfo::set_tof_mash_factor`, `get_k`, `get_sampling_in_k`, `set_num_tangential_poss`, `set_num_views`:
   src/buildblock/ProjDataInfo.cxx:69-90, :117-129, :174-255 (`setTofMash`, `tofInWindow`, `setNumTang`);
 * `overlap_interpolate(VectorWithOffset&, const VectorWithOffset&, zoom, offset, assign_rest_with_zeroes)`:
@@ -87,6 +90,14 @@ def PDI.toGeom (p : PDI) : Geom :=
     `a*axial_sampling - m_offset` with `axial_sampling = ring_spacing/inc`, `m_offset = (max_ax+min_ax)*axial_sampling/2`, `min_ax = 0` -/
 def _root_.StirVerif.C01.Seg.m4 (s : Seg) (a : Int) : Int := (2 * a - (s.numAx - 1)) * (if s.inc == 2 then 1 else 2)
 
+/-- `ProjDataInfoCylindrical::get_m(Bin(seg,·,a,·))` in millimetres for a scanner with ring spacing `rs` (exact; the source evaluates
+    `a*axial_sampling - m_offset` in binary32).  The ring spacing of most predefined scanners (6.54, 4.85, 3.29114, 5.56 … mm) is not a dyadic
+    rational: `rs` is then the exact value of the binary32 number the scanner holds. -/
+def _root_.StirVerif.C01.Seg.mMm (s : Seg) (rs : Rat) (a : Int) : Rat := ((s.m4 a : Int) : Rat) * rs / 4
+
+/-- `ProjDataInfoCylindrical::get_axial_sampling(segment)` = `ring_spacing / get_num_axial_poss_per_ring_inc(segment)` in millimetres -/
+def _root_.StirVerif.C01.Seg.axialSampling (s : Seg) (rs : Rat) : Rat := rs / ((s.inc : Int) : Rat)
+
 /-- `ProjDataInfo::set_num_tangential_poss` -/
 def setNumTang (n : Int) : Int × Int := (-(n.tdiv 2), -(n.tdiv 2) + n - 1)
 
@@ -155,6 +166,16 @@ def ssrbInfo (p : PDI) (kSeg kView trim maxSegArg kTof : Int) : Option PDI :=
                     minTang := (setNumTang (p.numTang - trim)).1, maxTang := (setNumTang (p.numTang - trim)).2,
                     tofMash := tofMash, minTof := minTof, maxTof := maxTof }
     | _, _ => none
+
+/-- `number_of_ms` of SSRB.cxx:126 evaluated EXACTLY in millimetres for ring spacing `rs`: `(max_m - min_m)/axial_sampling(out) + 1` with
+    `min_m`/`max_m` the smallest / largest `get_m` of the first / last axial positions of the input segments `lo … hi` and the axial
+    sampling of an output segment with increment `outInc`.  The source computes this quotient in binary32 and converts it with `round`
+    (after checking that it is within 1E-3 of an integer); `ssrbOutSeg` computes the same number in quarter ring spacings, where the ring
+    spacing cancels (`C15_ssrb_number_of_ms_any_ring_spacing`). -/
+def ssrbNumberOfMs (grp : List Seg) (first : Seg) (outInc : Int) (rs : Rat) : Rat :=
+  let minM := grp.foldl (fun acc s => min acc (s.mMm rs 0)) (first.mMm rs 0)
+  let maxM := grp.foldl (fun acc s => max acc (s.mMm rs (s.numAx - 1))) (first.mMm rs (first.numAx - 1))
+  (maxM - minM) / (rs / ((outInc : Int) : Rat)) + 1
 
 /-- azimuthal angle (offset, sampling) of the output (SSRB.cxx:72-79, `ProjDataInfoCylindrical::set_num_views`),
     exact in `Rat` from the input's float offset and sampling -/
@@ -530,6 +551,31 @@ def zoomImageParams2 (im : Img) (zoom xoff yoff : Rat) (newSize : Int) (opt : Zo
     let g := newGridFromZoom im.g 1 zoom zoom 0 yoff xoff im.g.nz newSize newSize
     ⟨g, im.d.map fun pl => zoomImage2 g im.g pl opt⟩
 
+/-! ## grid sizes derived from float zooms: `VoxelsOnCartesianGrid(exam_info, proj_data_info, zooms, origin, sizes)` -/
+
+/-- `ceil` of a rational -/
+def ceilQ (q : Rat) : Int := -((-q).floor)
+
+/-- `VoxelsOnCartesianGrid::construct_from_projdata_info` (VoxelsOnCartesianGrid.cxx:215-283) with `find_sampling_and_z_size`
+    (:53-150) for cylindrical projection data: ring spacing `rs`, default bin size `binSize > 0` of the scanner, segment 0 `seg0`,
+    `fov` = the largest `|get_s|` of the outermost tangential positions over the views (a float found by the source; an input here).
+    Voxel sizes are the binary32 quotients `(rs/2, binSize, binSize) / zooms`; the number of planes comes from segment 0 (all its axial
+    positions with axial compression, `2n-1` without) unless given; an x / y size given as `-1` is derived from the zoom:
+    `2 * static_cast<int>(ceil(fov / voxel_size)) + 1` with the quotient evaluated in binary32 — it is an ulp above or below an integer
+    for zooms like 1/3, 0.3, 2.2, and the conversion is transcribed as it is (`ceil` of the ROUNDED quotient).  `none` = `error`
+    (negative size).  Index ranges: planes from 0, y and x centred (`-(n/2) …`). The origin is the argument (not modelled: copied). -/
+def voxelsFromProjData (rs binSize fov : Rat) (seg0 : Seg) (zz zy zx : Rat) (sz sy sx : Int) : Option Grid :=
+  let zSize : Int := if sz < 0 then (if seg0.maxRD > seg0.minRD then seg0.numAx else 2 * seg0.numAx - 1) else sz
+  let vz := fl32 (fl32 (rs / 2) / zz)
+  let vy := fl32 (binSize / zy)
+  let vx := fl32 (binSize / zx)
+  let derive : Bool := sx == -1 || sy == -1
+  let xs : Int := if derive && sx == -1 then 2 * ceilQ (fl32 (fov / vx)) + 1 else sx
+  let ys : Int := if derive && sy == -1 then 2 * ceilQ (fl32 (fov / vy)) + 1 else sy
+  if xs < 0 ∨ ys < 0 then none
+  else some { zmin := 0, ymin := -(ys.tdiv 2), xmin := -(xs.tdiv 2), nz := zSize.toNat, ny := ys.toNat, nx := xs.toNat,
+              vz := vz, vy := vy, vx := vx, oz := 0, oy := 0, ox := 0 }
+
 /-! ## `zoom_viewgram` / `zoom_viewgrams` (zoom.cxx:97-210): arc-corrected viewgrams, tangential direction
 
 A viewgram is a list of rows (one per axial position) over the tangential positions `lo … lo+n-1`; every row is zoomed by the same
@@ -682,7 +728,17 @@ def extendSegment (seg : Arr3) (na nv nt : Nat) (ve ae te : Int) (mode : Nat) : 
         let o := copyT o a (min2 + e) (min2 + ve) false ts
         copyT o a (max2 - e) (max2 - ve) false ts
       | 1 =>
-        let sym := min (if min3 < 0 then -min3 else min3) max3
+        -- `sym_dim` and the two "asymmetric" loops over the tangential range of the INPUT (`seg.t0 … seg.t0+nt-1`): the documented
+        -- behaviour ("fill in asymmetric tangential positions at the end by just picking the nearest existing element").  The source at
+        -- the pinned revision takes the EXTENDED range (`min_dim[3]`, `max_dim[3]`) here, whose added positions are still empty (they are
+        -- filled by the last loop): the same result for a symmetric tangential range or without tangential extension, zeros in the added
+        -- views for data with an even number of tangential positions (`-n/2 … n/2-1`) and `tangential_extension > 0`; the harness reports
+        -- that class on the implementation (repair: build/fixes/C15-5.diff) and compares the other cases with this model.
+        let tmin := seg.t0
+        let tmax := seg.t0 + nt - 1
+        let sym := min (if tmin < 0 then -tmin else tmin) tmax
+        let min3 := tmin
+        let max3 := tmax
         let o := (irange (-sym) sym).foldl (fun o t =>
           let o := o.set a (min2 + e) t (o.get a (max2 - 2 * ve + e + 1) (-t))
           o.set a (max2 - ve + 1 + e) t (o.get a (min2 + ve + e) (-t))) o
